@@ -49,6 +49,9 @@ def cases(tier, seed):
             idx = [(2 * i + k + seed) % n_orders for k in range(2)]
             out.append(("observers", s, tuple(idx), _env.BUILDERS[i % 4], 2))
         out.append(("observers", F.P_2X2, tuple(range(n_orders)), "disjunctive", 2))
+        # graphs that were pruned (public remove_node) before the updater got them
+        for i, s in enumerate(F.sliced(F.K3_pos(), seed % 8, 8)):
+            out.append(("observers", s, ((i + seed) % 24, 24), ("disjunctive_without_sink", "agent_task_without_last_machine")[i % 2], 2))
         out.append(("observers", F.P_ZERO, tuple(range(0, n_orders, 4)), "agent_task", 2))
         for s in F.sliced(F.K3_pos(), seed % 6, 6):
             out.append(("env", s, 2))
@@ -60,6 +63,8 @@ def cases(tier, seed):
             out.append(("observers", s, ((2 * i) % n_orders, (2 * i + 1) % n_orders), _env.BUILDERS[i % 4], 3))
         for s in F.P_SMALL:
             out.append(("observers", s, tuple(range(0, n_orders, 3)), "complete_agent_task", 2))
+        for i, s in enumerate(F.K3_pos()):
+            out.append(("observers", s, ((i + seed) % 24, 24), ("disjunctive_without_sink", "agent_task_without_last_machine")[i % 2], 3))
         for s in F.K3_pos():
             out.append(("env", s, None))
         for s in F.sliced(F.K4_pos(), seed % 16, 16):
